@@ -513,6 +513,9 @@ func absentProbes(model map[string]string, extra ...string) []string {
 	}
 	for _, k := range sim.SortedKeys(model) {
 		for l := 0; l < len(k); l += 2 {
+			if len(k) > 40 && l > 12 && l < len(k)-12 && l%64 != 0 {
+				continue // long keys: the first and last few prefixes and every 32nd byte in between
+			}
 			add(k[:l])
 		}
 		add(k + "00")
